@@ -6,11 +6,11 @@ package hx
 
 import (
 	"encoding/json"
-	"io"
-	"log/slog"
 	"flag"
 	"fmt"
 	"hash/fnv"
+	"io"
+	"log/slog"
 	"os"
 	"path/filepath"
 	"runtime/debug"
